@@ -356,6 +356,192 @@ def spec_walker(method, presence):
     return sp
 
 
+# ---- ExpressionFinder (loki/ir/expr_visitors.py): every match of every expression child, declarations included -----
+# Executed from the real source on abstract tokens (a finite enumeration of shapes; every function is loop-free once the
+# children are concrete): `visit(child)` is the induction hypothesis (an arbitrary fixed tuple of matches per child),
+# `retrieve(expr)` an arbitrary fixed tuple of matches per expression.
+EXV = 'loki/ir/expr_visitors.py'
+
+
+class _XExpr:
+    """a matched sub-expression / an expression child (a pymbolic Expression for isinstance purposes)"""
+    def __init__(self, tag):
+        self.tag = tag
+
+    def __repr__(self):
+        return self.tag
+
+    __str__ = __repr__
+
+
+class _XNode:
+    def __init__(self, tag, children=(), symbols=()):
+        self.tag, self.children, self.symbols = tag, children, symbols
+
+    def __repr__(self):
+        return '<%s>' % self.tag
+
+
+class _XType:
+    def __init__(self, initial):
+        self.initial = initial
+
+
+class _XSymbol(_XExpr):
+    def __init__(self, tag, initial):
+        _XExpr.__init__(self, tag)
+        self.type = _XType(initial)
+
+
+class _XScalar(_XExpr):
+    pass
+
+
+class _XArray(_XExpr):
+    pass
+
+
+def _x_flatten(l, is_leaf=None):
+    from pyvc.inline import inline as _inl
+    return _X['flatten'](l, is_leaf=is_leaf)
+
+
+_X = {}
+
+
+def _x_setup():
+    if _X:
+        return
+    import collections
+    util = 'loki/tools/util.py'
+    g_util = {'is_iterable': lambda o: isinstance(o, (tuple, list)), 'Iterable': collections.abc.Iterable}
+    _X['flatten'] = inline(util, 'flatten', g_util)
+    g_util['flatten'] = _X['flatten']
+
+    class _OrderedSet(list):
+        """loki.tools.OrderedSet as far as the finder uses it: an insertion-ordered collection without duplicates"""
+        def __init__(self, items=()):
+            list.__init__(self)
+            for i in items:
+                if not any(i is j for j in self):
+                    self.append(i)
+    G = {'flatten': _X['flatten'], 'as_tuple': lambda x: () if x is None else (tuple(x) if isinstance(x, (tuple, list)) else (x,)),
+         'Expression': _XExpr, 'Scalar': _XScalar, 'Array': _XArray, 'Node': _XNode, 'OrderedSet': _OrderedSet}
+    _X['G'] = G
+    for m in ('find_uniques', '_return', 'visit_tuple', 'visit_Node', 'visit_TypeDef', 'visit_VariableDeclaration',
+              'visit_Expression'):
+        _X[m] = inline(EXV, 'ExpressionFinder.' + m, G)
+
+
+class _XSelf:
+    """an ExpressionFinder instance: the real methods bound to it; visit / retrieve are the fixed functions"""
+    def __init__(self, unique, results, retrieved):
+        import types
+        self.unique, self.with_ir_node = unique, False
+        self.results, self.retrieved, self.visited, self.retrieved_calls = results, retrieved, [], []
+        for m in ('find_uniques', '_return', 'visit_tuple', 'visit_Node', 'visit_TypeDef', 'visit_VariableDeclaration',
+                  'visit_Expression'):
+            setattr(self, m, types.MethodType(_X[m], self))
+
+    def visit(self, o, **kw):
+        if isinstance(o, (tuple, list)):
+            return self.visit_tuple(o, **kw)
+        self.visited.append(o)
+        return self.results[id(o)]
+
+    def retrieve(self, e):
+        self.retrieved_calls.append(e)
+        return self.retrieved[id(e)]
+
+
+def _x_sha(meth):
+    import ast
+    from pyvc import rewrite
+    src = rewrite.read_source(EXV)
+    node, _ = rewrite.find_def(ast.parse(src), 'ExpressionFinder.' + meth)
+    return rewrite.sha(rewrite.func_text(src, node))
+
+
+def _x_super(clsname, obj):
+    return obj          # super().visit(...) of the finder is the generic dispatch: the model's visit
+
+
+def spec_finder(meth, shape, unique):
+    """shape: visit_Node / visit_tuple: a tuple of child kinds ('n' node with 2 matches, 'z' node without, 't' nested tuple
+    of two nodes); visit_VariableDeclaration: a tuple of booleans (symbol k has an initialiser)"""
+    def setup(spec):
+        _x_setup()
+        results, retrieved = {}, {}
+        env = {}
+        if meth == 'visit_VariableDeclaration':
+            syms = []
+            for k, has in enumerate(shape):
+                init = _XExpr('init%d' % k) if has else None
+                if init is not None:
+                    retrieved[id(init)] = [_XExpr('m_init%d_%d' % (k, j)) for j in range(2)]
+                syms.append(_XSymbol('sym%d' % k, init))
+            for sy in syms:
+                results[id(sy)] = (_XExpr('m_' + sy.tag),)
+            dims = _XExpr('dim')
+            results[id(dims)] = (_XExpr('m_dim'),)
+            o = _XNode('decl', (tuple(syms), (dims,)), tuple(syms))
+            want = [results[id(sy)][0] for sy in syms] + [results[id(dims)][0]]
+            for sy in syms:
+                if sy.type.initial is not None:
+                    want += list(retrieved[id(sy.type.initial)])
+            arg = o
+        else:
+            kids, want = [], []
+            for k, kind in enumerate(shape):
+                if kind == 't':
+                    sub = tuple(_XNode('c%d_%d' % (k, j)) for j in range(2))
+                    for n in sub:
+                        results[id(n)] = (_XExpr('m_' + n.tag),)
+                        want.append(results[id(n)][0])
+                    kids.append(sub)
+                else:
+                    n = _XNode('c%d' % k)
+                    results[id(n)] = tuple(_XExpr('m_%s_%d' % (n.tag, j)) for j in range(2)) if kind == 'n' else ()
+                    want += list(results[id(n)])
+                    kids.append(n)
+            arg = _XNode('o', tuple(kids)) if meth == 'visit_Node' else tuple(kids)
+        me = _XSelf(unique, results, retrieved)
+        env.update(me=me, arg=arg, want=want)
+        return (env,), {}, env
+
+    def run(env):
+        return getattr(env['me'], meth)(env['arg'])
+
+    def post(env, r):
+        got = list(r)
+        want = env['want']
+        same = len(got) == len(want) and all(a is b for a, b in zip(got, want))
+        return [('returns-every-match-of-every-child-in-order', z3.BoolVal(same))]
+    sp = FunctionSpec(PROP, EXV, 'ExpressionFinder.' + meth, {}, setup, post, theory=T, lemmas=[], ext=False,
+                      variant='%s, unique=%s' % (''.join(str(int(x)) if isinstance(x, bool) else x for x in shape) or 'empty', unique),
+                      super_=_x_super, decode=lambda env, m, r: {'function': 'ExpressionFinder.' + meth, 'shape': list(shape), 'unique': unique})
+    sp.fn_override = run
+    sp.fn_info = {'file': EXV, 'qualname': 'ExpressionFinder.' + meth, 'sha': _x_sha(meth), 'loops': {}, 'dropped': []}
+    return sp
+
+
+def finder_specs():
+    import itertools
+    out = []
+    for unique in (False, True):
+        for n in range(0, 4):
+            for shape in itertools.product('nzt', repeat=n):
+                if n == 3 and shape.count('t') > 1:
+                    continue
+                out.append(spec_finder('visit_Node', shape, unique))
+                if n <= 2:
+                    out.append(spec_finder('visit_tuple', shape, unique))
+        for k in (1, 2, 3):
+            for shape in itertools.product((True, False), repeat=k):
+                out.append(spec_finder('visit_VariableDeclaration', shape, unique))
+    return out
+
+
 def specs(tier='quick'):
     out = []
     for wr in (False, True):
@@ -368,7 +554,7 @@ def specs(tier='quick'):
         nopt = sum(1 for _, how in CHILDREN.get(m, []) if how in ('opt', 'optnone'))
         for pres in itertools.product((True, False), repeat=nopt):
             out.append(spec_walker(m, pres))
-    return out
+    return out + finder_specs()
 
 
 def lemma_proofs():
